@@ -2906,7 +2906,19 @@ PIP_Solution_Node::solve(const PIP_Problem& pip,
         dimension_type j;
         if (!find_lexico_minimal_column(tableau.s, mapping, basis,
                                         tableau.s[i], 0, j)) {
-          // No positive s_ij was found: problem is unfeasible.
+          // No positive s_ij was found: the problem is unfeasible for
+          // all the parameter values such that t_i(z) < 0.
+          // NOTE: row i may have been marked as negative even though it
+          // is only known to be non-positive on the context (see the
+          // refinement of mixed rows above and the parametric cuts of
+          // generate_cut()). Hence, the whole context is unfeasible only
+          // if constraint t_i(z) >= 0 is not compatible with it;
+          // otherwise let the row be processed as a mixed sign row
+          // having no positive variable coefficient.
+          if (compatibility_check(ctx, tableau.t[i])) {
+            sign[i] = MIXED;
+            continue;
+          }
 #ifdef NOISY_PIP_TREE_STRUCTURE
           indent_and_print(std::cerr, indent_level,
                            "No positive pivot: Solution = _|_\n");
@@ -2925,6 +2937,11 @@ PIP_Solution_Node::solve(const PIP_Problem& pip,
             break;
           }
         }
+      }
+
+      if (pj == not_a_dim) {
+        // No negative row is left: go for the mixed sign rows.
+        continue;
       }
 
 #ifdef VERY_NOISY_PIP
